@@ -146,8 +146,18 @@ func runC04(s *core.Sim, tier string) RunInfo {
 		switch core.Pick(s.Tape, "op", []string{"append", "append", "append", "check", "delete", "restart", "sync", "peek", "peek"}) {
 		case "append":
 			from, to, kind := genAppend(s, w, m)
+			run := w.Ch.Range(from, to)
+			if len(run) > 1 && s.Tape.Coin("unordered-batch", 1, 5) {
+				// "Append in any order": the headers of one call need not be ascending
+				for j := len(run) - 1; j > 0; j-- {
+					k := s.Tape.Draw("shuffle", j+1)
+					run[j], run[k] = run[k], run[j]
+				}
+				kind += ",unordered"
+				s.Probe("append-unordered-batch")
+			}
 			hist = append(hist, fmt.Sprintf("append %d..%d (%s)", from, to, kind))
-			if err := w.Append(w.Ch.Range(from, to)...); err != nil {
+			if err := w.Append(run...); err != nil {
 				s.Violate("append-error", nil, "Append(%d..%d): %v", from, to, err)
 				break
 			}
